@@ -109,7 +109,8 @@ class World:
         nd = self.graph[x]
         if nd["fails"]:
             raise RuntimeError("factory %d failed" % x)
-        o = types.SimpleNamespace(name=x)
+        # (every third resource is an EMPTY container - a falsy value: a shared scratch list that starts empty)
+        o = _Bag() if x % 3 == 0 else types.SimpleNamespace(name=x)
         self.objs.append(o)
         self.oid[id(o)] = len(self.objs)
         args = [self.oid[id(kw["d%d" % j])] for j in range(len(nd["deps"]))]
@@ -160,6 +161,11 @@ class World:
             out += [name(k), self.oid[id(v)]]
         out += [m._resolution_depth, len(self.objs) + 1]
         return out
+
+
+class _Bag(list):
+    """an empty list with an identity: bool(_Bag()) is False"""
+    __hash__ = object.__hash__
 
 
 def run_script(graph, script):
